@@ -741,6 +741,39 @@ pub fn reply_case() -> impl Strategy<Value = ReplyCase> {
     ];
     (0u8..4, any::<u8>(), reply).prop_map(|(op, key, reply)| ReplyCase { op, key, reply })
 }
+// byte decoder of ReplyCase for the coverage-guided stage: same shapes and ranges as `reply_case`
+fn id_shape_dec(u: &mut Unstructured) -> arbitrary::Result<IdShape> {
+    Ok(match u.int_in_range(0u8..=8)? {
+        0 | 1 => IdShape::Hex,
+        2 => IdShape::Empty,
+        3..=5 => IdShape::MultiByte(u.arbitrary()?, u.arbitrary()?),
+        6 => IdShape::Long(u.arbitrary()?),
+        _ => {
+            let n = u.int_in_range(0usize..=24)?.min(u.len());
+            IdShape::Text(String::from_utf8_lossy(u.bytes(n)?).chars().take(24).collect())
+        }
+    })
+}
+pub fn decode_reply(data: &[u8]) -> Option<ReplyCase> {
+    let mut u = Unstructured::new(data);
+    let r: arbitrary::Result<ReplyCase> = (|| {
+        let op = u.int_in_range(0u8..=3)?;
+        let key = u.arbitrary()?;
+        let reply = match u.int_in_range(0u8..=11)? {
+            0..=3 => HostileReply::Value { get_success: u.arbitrary()?, len: u.arbitrary()?, other_key: u.arbitrary()?, source: id_shape_dec(&mut u)? },
+            4..=7 => HostileReply::Nodes { n: u.arbitrary()?, id: id_shape_dec(&mut u)?, addr: u.int_in_range(0u8..=4)?, forged_distance: u.arbitrary()? },
+            8 => HostileReply::PutAck { replicated_to: u.arbitrary()?, outcomes: u.arbitrary()?, id: id_shape_dec(&mut u)? },
+            9 => HostileReply::NotFound { peers_queried: u.arbitrary()? },
+            10 => HostileReply::Pong { responder: id_shape_dec(&mut u)? },
+            _ => HostileReply::Error { len: u.arbitrary()? },
+        };
+        Ok(ReplyCase { op, key, reply })
+    })();
+    r.ok()
+}
+pub fn check_reply(c: &ReplyCase) -> Verdict {
+    run_reply(c)
+}
 
 pub fn run(run: &Run) {
     // a single allocation request that would abort the process is decided for the case in flight (engine::absurd_fatal)
